@@ -150,7 +150,46 @@ def name_of(layers):
     return "/".join(parts)
 
 
+def gen_config_only(case, path):
+    """A stack whose array is NOT sized for the storage order above it: construct, read every layer's configuration back, rebuild
+    from the reported configurations, construct through the positional helper.  Never looked up."""
+    layers = case["layers"]
+    depth = len(layers)
+    name = name_of(layers) + "/count=%d" % layers[-1]["count"]
+    L = ["#define VF_STACK_NAME \"%s\"" % name, "#include \"stack_common.hpp\"", ""]
+    for i in range(depth):
+        L.append("using L%d = %s;" % (i, type_of(layers, i)))
+    L.append("using B = L0;")
+    L.append("using F = covfie::field<B>;")
+    cfgs = ", ".join(cfg_expr(layers[i], "L%d" % i) for i in range(depth))
+    L.append("int main() {")
+    L.append("    F f(covfie::make_parameter_pack(%s));" % cfgs)
+    for i in range(depth):
+        acc = "f.backend()" + ".get_backend()" * i
+        L.append("    { auto c = %s.get_configuration(); vs::check(%s, \"c17/configuration-readback-unrelated-sizes\", \"\\\"layer\\\":%d\"); }" % (acc, same_expr(layers[i], "c"), i))
+    rep = ", ".join("%s.get_configuration()" % ("f.backend()" + ".get_backend()" * i) for i in range(depth))
+    L.append("    { F g(covfie::make_parameter_pack(%s));" % rep)
+    for i in range(depth):
+        acc = "g.backend()" + ".get_backend()" * i
+        L.append("      { auto c = %s.get_configuration(); vs::check(%s, \"c17/rebuilt-from-reported-configuration-unrelated-sizes\", \"\\\"layer\\\":%d\"); }" % (acc, same_expr(layers[i], "c"), i))
+    L.append("    }")
+    L.append("    { F h(covfie::make_parameter_pack_for<F>(%s));" % cfgs)
+    for i in range(depth):
+        acc = "h.backend()" + ".get_backend()" * i
+        L.append("      { auto c = %s.get_configuration(); vs::check(%s, \"c17/positional-helper-unrelated-sizes\", \"\\\"layer\\\":%d\"); }" % (acc, same_expr(layers[i], "c"), i))
+    L.append("    }")
+    L.append("    { F c1(f); F c2 = F(covfie::make_parameter_pack(%s)); c2 = c1;" % cfgs)
+    L.append("      { auto c = c2.backend()%s.get_configuration(); vs::check(%s, \"c17/configuration-readback-unrelated-sizes\", \"\\\"layer\\\":%d\"); } }" % (".get_backend()" * (depth - 1), same_expr(layers[-1], "c"), depth - 1))
+    L.append("    std::printf(\"SUMMARY {\\\"cases\\\":1,\\\"checks\\\":%ld,\\\"mismatches\\\":%ld}\\n\", vs::g_checks, vs::g_bad);")
+    L.append("    return 0;")
+    L.append("}")
+    open(path, "w").write("\n".join(L) + "\n")
+    return name
+
+
 def gen(case, path, ident):
+    if case.get("config_only"):
+        return gen_config_only(case, path)
     layers = case["layers"]
     depth = len(layers)
     kd = kinds(layers)
